@@ -351,6 +351,79 @@ def worker(job):
     return part.dump()
 
 
+def repl_worker(job):
+    """the same relation through the real `exec` command of the btcdeb binary (kerl argument splitting + fn_exec)"""
+    bindir, idx, n = job
+    from vf import proc
+    rng = sub_rng(PROP, 'repl', idx)
+    part = Partial()
+    wd = scratch('c16r')
+    btcdeb = os.path.join(bindir, 'btcdeb')
+    try:
+        for j in range(n):
+            st = gen.rnd_stack(rng)[:3]
+            script = gen.strip_sigops(gen.gen_deep(rng, BASE, STANDARD, rng.choice([2, 5, 9]), st, fail_keep=0.0)) or bytes([OP_1])
+            if is_p2sh(script):
+                continue
+            ops = decode_all(script) or []
+            nops = len(ops)
+            k = rng.choice([0, nops // 2, max(0, nops - 1), nops])
+            toks = [t for t in gen_tokens(rng, BASE, 0) if t and all(ch.isalnum() or ch in '_-' for ch in t)] or ['OP_NOP']
+            it = Interp(script, st, STANDARD, BASE)
+            try:
+                for _ in range(k):
+                    it.step()
+            except (ScriptFail, NumErr):
+                continue
+            comp = [compile_token(t) for t in toks]
+            if any(cpl is None for cpl in comp) or any(l for b, l in comp):
+                continue
+            ex = Interp(b''.join(b for b, l in comp), list(it.stack), STANDARD, BASE, alt=list(it.alt), vf=list(it.vf))
+            ex.nop = it.nop
+            res = None
+            try:
+                while not ex.at_end():
+                    ex.step()
+            except ScriptFail as e:
+                res = e.code
+            except NumErr as e:
+                res = 'NUM_' + e.kind
+            args = ['0x' + script.hex()] + ['0x' + x.hex() for x in st]
+            r, segs = proc.repl_session(btcdeb, args, ['step'] * k + ['exec ' + ' '.join(toks)], wd, timeout=60)
+            part.evaluations += 1
+            wit = dict(script=script.hex(), stack=[x.hex() for x in st], steps_before=k, exec=toks, via='btcdeb REPL')
+            if r.abnormal:
+                part.violation('repl:' + r.crash_key('btcdeb'), dict(wit, run=r.brief()))
+                continue
+            if len(segs) != k + 2:
+                part.inconc('repl-session-short')
+                continue
+            pre, post = segs[-2]['dump'], segs[-1]['dump']
+            out = segs[-1]['out'] + r.stderr.decode('latin1')
+            if (post['pc'], post['seq'], post['done'], post['script']) != (pre['pc'], pre['seq'], pre['done'], pre['script']):
+                part.violation('repl:exec-moves-script-position', wit)
+                continue
+            if res is not None:
+                if 'rror' not in out:
+                    wit['ref'] = res
+                    part.violation('repl:failing-exec-reports-no-error', wit)
+                    continue
+                part.count('repl', 'failing-exec-reported')
+            else:
+                got = [bytes.fromhex(x) for x in post['stack']]
+                galt = [bytes.fromhex(x) for x in post['alt']]
+                if not lockstep.stacks_equal(ex.stack, got) or not lockstep.stacks_equal(ex.alt, galt) or ex.vfstate() != (post['vfsize'], post['vfff']):
+                    wit['want'] = [x.hex() if isinstance(x, bytes) else str(x) for x in ex.stack]
+                    wit['got'] = post['stack']
+                    part.violation('repl:exec-state-differs', wit)
+                    continue
+                part.count('repl', 'state-equal')
+            part.nontrivial.add(nt_hash('repl', script, k, tuple(toks)))
+    finally:
+        cleanup_scratch(wd)
+    return part.dump()
+
+
 def main():
     ap = argparse.ArgumentParser()
     ap.add_argument('--tier', default=os.environ.get('VERIF_TIER', 'quick'))
@@ -377,11 +450,13 @@ def main():
     n = 1500 if a.tier == 'quick' else 6000
     for r in parallel(worker, [(bindir, i, n) for i in range(32)]):
         rep.merge(r)
+    for r in parallel(repl_worker, [(bindir, i, 12 if a.tier == 'quick' else 150) for i in range(16)]):
+        rep.merge(r)
     return rep.finish(
         rule='session = model-steered script stepped to a random prefix (start, middle, last op, end); exec token lists of 1..8 tokens in exec\'s own grammar (opcode names with/without OP_, decimals, hex pushes, '
              'invalid tokens at 3%; 30% of the sessions issue another exec first - failing, throwing or succeeding - and the judged exec starts from the state reported after it); judged against the reference executing the compiled operations on the same pre-state, then the remaining script is stepped and compared. '
              'every 8th case is a tapscript session with an explicit BIP342 validation-weight budget (0..1000) whose script and exec lists contain CHECKSIG/CHECKSIGVERIFY/CHECKSIGADD on non-empty signatures and unknown-type keys, so that exec\'d checks must consume the same budget as scripted ones. '
-             'non-trivial = distinct (script, prefix, token list, flags, sigversion) whose exec result (state or required error) was compared',
+             'a sample runs through the real `exec` command of the btcdeb binary (scripted REPL: step k times, exec, state dump). non-trivial = distinct (script, prefix, token list, flags, sigversion) whose exec result (state or required error) was compared',
         assumptions=['token -> operation mapping is exec\'s documented grammar (round-tripping decimal = number, even-length hex = data push, else opcode name); a data push that is not the minimal form may or may not trip MINIMALDATA',
                      'signature opcodes inside exec are judged in tapscript sessions without a transaction (empty signatures, unknown public-key types, budget exhaustion); real signature verification and OP_CODESEPARATOR inside exec are exercised by C15 (memory safety) only'],
         min_events=1000)
